@@ -38,7 +38,7 @@ pub fn gen_config(profile: &str, rng: &mut Rng, tier: Tier) -> Config {
 				nc.async_default = r.chance(1, 2);
 				nc.deferred = r.chance(1, 3);
 			},
-			"crash" | "forward" | "payments" | "receive" | "onchain" => {
+			"crash" | "forward" | "payments" | "receive" | "onchain" | "roundtrip" | "chainstyle" => {
 				nc.async_default = r.chance(1, 4);
 				nc.deferred = r.chance(1, 5);
 			},
@@ -94,6 +94,7 @@ pub fn gen_config(profile: &str, rng: &mut Rng, tier: Tier) -> Config {
 	w(&mut weights, "Relay", 0);
 	w(&mut weights, "Mine", 0);
 	w(&mut weights, "Sync", 0);
+	w(&mut weights, "Reorg", 0);
 	match profile {
 		"offchain" => {
 			w(&mut weights, "CloseCoop", if r.chance(1, 3) { 1 } else { 0 });
@@ -105,7 +106,7 @@ pub fn gen_config(profile: &str, rng: &mut Rng, tier: Tier) -> Config {
 			w(&mut weights, "AsyncOn", 2);
 			w(&mut weights, "PersistMgr", 6);
 		},
-		"forward" | "payments" | "receive" | "crash" | "onchain" => {
+		"forward" | "payments" | "receive" | "crash" | "onchain" | "roundtrip" | "chainstyle" => {
 			w(&mut weights, "CompleteMon", *r.pick(&[10, 25, 50]));
 			w(&mut weights, "AsyncOn", 1);
 			w(&mut weights, "PersistMgr", *r.pick(&[3, 8, 20]));
@@ -118,6 +119,14 @@ pub fn gen_config(profile: &str, rng: &mut Rng, tier: Tier) -> Config {
 			w(&mut weights, "SetFee", 0);
 		},
 		_ => {},
+	}
+	if profile == "chainstyle" {
+		w(&mut weights, "Mine", *r.pick(&[3, 6]));
+		w(&mut weights, "Reorg", *r.pick(&[1, 2, 4]));
+		w(&mut weights, "ForceClose", 2);
+		w(&mut weights, "Relay", 6);
+		w(&mut weights, "Crash", 1);
+		w(&mut weights, "ArmCrash", 0);
 	}
 	// T5 (fee-estimator sanity), extended: with a fixed-msat dust-exposure limit LDK documents
 	// that a feerate rise can legitimately force-close; fee changes are only explored with the
@@ -326,6 +335,8 @@ pub fn next_action(wd: &World, rng: &mut Rng) -> Option<Action> {
 	// HTLC comes near its expiry while a node is down or messages are delayed
 	if wd.out.sim_blocks < 18 {
 		kinds.push(("Mine", weight(cfg, "Mine")));
+		// T4: reorganisations stay below the anti-reorg depth where loss-freedom is asserted
+		kinds.push(("Reorg", weight(cfg, "Reorg")));
 	}
 	if live.iter().any(|i| wd.nodes[*i].broadcaster.len() > 0) {
 		kinds.push(("Relay", weight(cfg, "Relay")));
@@ -422,6 +433,10 @@ pub fn next_action(wd: &World, rng: &mut Rng) -> Option<Action> {
 		},
 		"Restart" => Action::Restart { n: *rng.pick(&dead), style: 0 },
 		"Mine" => Action::Mine { count: rng.range(1, 3) as u32 },
+		"Reorg" => {
+			let depth = *rng.pick(&[1u32, 1, 2, 3, 5]);
+			Action::Reorg { depth, readmit: rng.chance(3, 4), new_len: depth + rng.below(2) as u32 + 1 }
+		},
 		"Relay" => {
 			let c: Vec<usize> = live.iter().cloned().filter(|i| wd.nodes[*i].broadcaster.len() > 0).collect();
 			Action::Relay { n: *rng.pick(&c) }
